@@ -8,6 +8,7 @@ from collections import OrderedDict, defaultdict
 from copy import deepcopy
 from enum import Enum
 from multiprocessing.connection import Connection
+from multiprocessing.reduction import ForkingPickler
 from multiprocessing.sharedctypes import RawArray
 from typing import Any, Callable, Dict, List, Optional, Tuple, TypeAlias, TypeVar, Union
 
@@ -995,6 +996,11 @@ def _async_worker(
     except (KeyboardInterrupt, Exception):
         error_type, error_message, _ = sys.exc_info()
         trace = traceback.format_exc()
+        try:
+            ForkingPickler.dumps((error_type, error_message))
+        except Exception:
+            # Keep the type, drop the payload that cannot cross the process boundary
+            error_message = str(error_message)
         error_queue.put((index, error_type, error_message, trace))
         pipe.send((None, False))
 
